@@ -68,6 +68,45 @@ def parseTIns (s : String) : Option (List Model.TIns) :=
       pure { off := o, size := sz, cls := c, target := t }
     | _ => none
 
+def parseArm : String → Model.Arm
+  | "funcDef" => .funcDef | "simple" => .simple | "noop" => .noop | "ifS" => .ifS
+  | "whileS" => .whileS | "forS" => .forS | "refuse" => .refuse | _ => .unknown
+
+/-- `chain;fallback;nested;kinds` with chain = `A+B:arm,C:arm`, kinds = `Name:mro1+mro2,...` -/
+def parseDispatch (s : String) : Option Model.DispatchData :=
+  match s.splitOn ";" with
+  | [ch, fb, ne, ks] =>
+    let chain := (lst ch).filterMap fun e => match e.splitOn ":" with
+      | [cls, arm] => some (cls.splitOn "+", parseArm arm)
+      | _ => none
+    let kinds := (lst ks).filterMap fun e => match e.splitOn ":" with
+      | [n, mro] => some (n, mro.splitOn "+")
+      | _ => none
+    some { chain := chain, fallback := parseArm fb, kinds := kinds, nestedDefRefused := ne == "1" }
+  | _ => none
+
+/-- programs: `Kind[stmts][stmts]`, statements juxtaposed -/
+partial def parseStmts (cs : List Char) : List Model.Stmt × List Char :=
+  match cs with
+  | [] => ([], [])
+  | ']' :: _ => ([], cs)
+  | _ =>
+    let name := cs.takeWhile fun c => c != '['
+    let rest := cs.dropWhile fun c => c != '['
+    match rest with
+    | '[' :: r1 =>
+      let (body, r2) := parseStmts r1
+      match r2 with
+      | ']' :: '[' :: r3 =>
+        let (orelse, r4) := parseStmts r3
+        match r4 with
+        | ']' :: r5 =>
+          let (more, r6) := parseStmts r5
+          (Model.Stmt.node (String.ofList name) body orelse :: more, r6)
+        | _ => ([], [])
+      | _ => ([], [])
+    | _ => ([], [])
+
 def cj (xs : List String) : String := if xs.isEmpty then "-" else commaJoin xs
 
 def showM {α : Type} (r : Model.M α) (f : α → String) : String :=
@@ -179,6 +218,14 @@ def step (st : DState) (line : String) : DState × String :=
   | ["BCSPEC", ins] => match parseTIns ins with
     | some is => (st, "ok " ++ ";".intercalate ((Model.specBlocks is).map fun b =>
         s!"{b.1}:{"+".intercalate (b.2.1.map toString)}:{"+".intercalate (b.2.2.map toString)}"))
+    | none => (st, "bad-request")
+  | ["DISPATCH", data] => match parseDispatch data with
+    | some dd => (st, s!"{bit (Model.dispatchOK dd)} {cj (Model.dispatchOffenders dd)}")
+    | none => (st, "bad-request")
+  | ["REFUSES", data, prog] => match parseDispatch data with
+    | some dd =>
+      let p := (parseStmts prog.toList).1
+      (st, s!"{bit (Model.refusesTop dd p)} {bit (Model.hasUnsupportedTop p)} {bit (Model.kindsKnownList dd p)}")
     | none => (st, "bad-request")
   | ["IT", "iter", c] => (st, showM (Model.iterAll st.h (st.h.length + 2) c) cj)
   | ["IT", "view", c] => (st, showM (Model.viewIter st.h c) cj)
